@@ -810,3 +810,10 @@ M("m166", "C08", "R8.10", SOLVER, "self.epsilon = self.config.epsilon", "self.ep
 B("b58", ["C10", "C09", "C12"], CKPT, "        step = step or manager.latest_step()\n        if step is None:\n            raise ValueError(f\"No checkpoints found in {checkpoint_dir}\")\n\n        # Restore state",
   "        step = step or max(manager.all_steps(), default=None)\n        if step is None:\n            raise ValueError(f\"No checkpoints found in {checkpoint_dir}\")\n\n        # Restore state",
   "latest step taken as the maximum of the manager's own integer steps")
+B("b59", ["C15", "C14", "C13", "C16"], MIRJ, "        opening_stock_after_delivery = opening_stock_after_delivery.clip(\n            0, self.max_order_quantity\n        )",
+  "        opening_stock_after_delivery = jnp.minimum(\n            jnp.maximum(opening_stock_after_delivery, 0), self.max_order_quantity\n        )",
+  "clip written as minimum(maximum(x, 0), Q)")
+B("b60", ["C18", "C03"], BATCH, "            self.n_batches = (\n                states_per_device + self.batch_size - 1\n            ) // self.batch_size",
+  "            self.n_batches = -(-states_per_device // self.batch_size)", "ceiling division by negated floor division")
+M("m168", "C05", "R5.3", PI, "n_changed = jnp.any(new_policy != self.policy, axis=1).sum()", "n_changed = jnp.any(jnp.abs(new_policy - self.policy) > 1, axis=1).sum()",
+  "policy change counted only when a component moves by more than one unit")
